@@ -12,6 +12,7 @@ func init() {
 	vpRegister("c12_transform", vpH_c12_transform)
 	vpRegister("c12_scope", vpH_c12_scope)
 	vpRegister("c12_badtoken", vpH_c12_badtoken)
+	vpRegister("c12_ws", vpH_c12_ws)
 }
 
 // The property's token language, written without reference to the code:
@@ -287,4 +288,93 @@ func vpH_c12_badtoken() {
 	}
 	err := step.InterpolateMatrixPermutation(MatrixPermutation{"os": "x"})
 	vpAssert(err != nil, "a token naming a dimension the permutation lacks makes the call fail, at every in-scope position")
+}
+
+// vpC12WS: the inner whitespace of a token - none, a space, or the other
+// whitespace bytes a token written in a YAML block scalar or a quoted JSON
+// string can carry.
+func vpC12WS() string {
+	switch vpInt(0, 5) {
+	case 1:
+		return " "
+	case 2:
+		return "\t"
+	case 3:
+		return "\n"
+	case 4:
+		return "\r\n  "
+	case 5:
+		return "\f"
+	}
+	return ""
+}
+
+// Tokens whose inner whitespace is a tab, newline, carriage return or form
+// feed are tokens like any other, whether or not an ordinary token stands
+// elsewhere in the step; the step has no plugins, so it can be serialised
+// without touching the plugin-source rules.
+func vpH_c12_ws() {
+	w1, w2 := vpC12WS(), vpC12WS()
+	v := vpStr(1, "x-z")
+	t1 := "{{" + w1 + "matrix.os" + w1 + "}}"
+	t2 := "{{" + w2 + "matrix.os" + w2 + "}}"
+	bad := "{{" + w2 + "matrix.nope" + w2 + "}}"
+	where := vpInt(0, 4)
+	step := &CommandStep{
+		Command:         "c",
+		Label:           "l",
+		Env:             map[string]string{"E": "e"},
+		Matrix:          &Matrix{Setup: MatrixSetup{"os": {v}}},
+		RemainingFields: map[string]any{"r": "s", "agents": vpMapOf("queue", "q")},
+	}
+	put := func(tok string) {
+		switch where {
+		case 0:
+			step.Command += tok
+		case 1:
+			step.Label += tok
+		case 2:
+			step.Env["E"] += tok
+		case 3:
+			step.RemainingFields["r"] = "s" + tok
+		case 4:
+			step.RemainingFields["agents"] = vpMapOf("queue", "q"+tok)
+		}
+	}
+	second := vpBool()
+	if second { // an ordinary-looking token elsewhere in the step
+		step.Command = "c" + t1 + " "
+	}
+	unknown := vpBool()
+	if unknown {
+		put(bad)
+		err := step.InterpolateMatrixPermutation(MatrixPermutation{"os": v})
+		vpAssert(err != nil, "a token naming an unknown dimension fails whatever whitespace it is written with")
+		return
+	}
+	put(t2)
+	err := step.InterpolateMatrixPermutation(MatrixPermutation{"os": v})
+	vpAssert(err == nil, "a valid permutation is applied without error")
+	pre := "c"
+	if second {
+		pre = "c" + v + " "
+	}
+	var got, want string
+	switch where {
+	case 0:
+		got, want = step.Command, pre+v
+	case 1:
+		got, want = step.Label, "l"+v
+	case 2:
+		got, want = step.Env["E"], "e"+v
+	case 3:
+		got, want = step.RemainingFields["r"].(string), "s"+v
+	case 4:
+		q, _ := step.RemainingFields["agents"].(*ordered.MapSA).Get("queue")
+		got, want = q.(string), "q"+v
+	}
+	vpAssert(got == want, "a token is replaced whatever whitespace (space, tab, newline, CR, form feed) it is written with")
+	if where != 0 {
+		vpAssert(step.Command == pre, "the other token in the step is replaced as well")
+	}
 }
